@@ -1,8 +1,17 @@
 """Worker process of the state-table checks: reads one JSON case per line on stdin, runs it on the real
 code (`tablekit.run_script`) under this process's PYTHONHASHSEED, answers one JSON line."""
 import json
+import signal
 import sys
 import traceback
+
+
+class ScriptTimeout(Exception):
+    pass
+
+
+def _budget_used_up(signum, frame):
+    raise ScriptTimeout()
 
 
 def main() -> int:
@@ -14,7 +23,16 @@ def main() -> int:
         if not line:
             continue
         try:
-            res = tablekit.run_script(json.loads(line))
+            # CPU-time budget of one script in THIS process (the parent only waits on the pipe, so its own CPU timer
+            # cannot see a hang in here); repeating, because a single exception can be swallowed inside pandas
+            signal.signal(signal.SIGPROF, _budget_used_up)
+            signal.setitimer(signal.ITIMER_PROF, 300.0, 2.0)
+            try:
+                res = tablekit.run_script(json.loads(line))
+            finally:
+                signal.setitimer(signal.ITIMER_PROF, 0)
+        except ScriptTimeout:
+            res = {"__timeout__": True}
         except BaseException as e:  # noqa: BLE001
             if isinstance(e, (KeyboardInterrupt, SystemExit)):
                 raise
